@@ -52,6 +52,8 @@ MeasureN(n, destructive, override) ==
   LET mm == CQPow(Measure1(destructive), n) IN IF override THEN CQKron(mm, CQPow(DiscardB, n)) ELSE mm
 BitsT(bits) == T(<<>>, Q(Len(bits)), LAMBDA r, cc : IF Digits(cc, Q(Len(bits))) = bits THEN ROne ELSE RZero)
 NotT == T(<<2>>, <<2>>, LAMBDA r, cc : IF r # cc THEN ROne ELSE RZero)
+\* a genuinely stochastic classical gate (rows = input bit):  0 -> (1/4, 3/4),  1 -> (1/2, 1/2)
+NoisyT == T(<<2>>, <<2>>, LAMBDA r, cc : IF r = 0 THEN (IF cc = 0 THEN DivS2(ROne, 4) ELSE DivS2(FromInt(3), 4)) ELSE DivS2(ROne, 2))
 CopyT == Delta(1, 2)
 MatchT == Delta(2, 1)
 CQSwap(l, r) ==
@@ -74,7 +76,7 @@ BoxDom(g) ==
     [] g.k = "Discard" -> g.tl
     [] g.k = "MixedState" -> <<>>
     [] g.k = "Bits" -> <<>>
-    [] g.k = "NOT" -> <<"b">>
+    [] g.k \in {"NOT", "Noisy"} -> <<"b">>
     [] g.k = "Copy" -> <<"b">>
     [] g.k = "Match" -> <<"b", "b">>
     [] g.k = "MSwap" -> g.tl \o g.tr
@@ -86,7 +88,7 @@ BoxCod(g) ==
     [] g.k = "Discard" -> <<>>
     [] g.k = "MixedState" -> g.tl
     [] g.k = "Bits" -> Rep("b", Len(g.bits))
-    [] g.k = "NOT" -> <<"b">>
+    [] g.k \in {"NOT", "Noisy"} -> <<"b">>
     [] g.k = "Copy" -> <<"b", "b">>
     [] g.k = "Match" -> <<"b">>
     [] g.k = "MSwap" -> g.tr \o g.tl
@@ -100,6 +102,7 @@ BoxCQ(g) ==
     [] g.k = "MixedState" -> CQDag(DiscardTy(g.tl))
     [] g.k = "Bits" -> CQClassical(BitsT(g.bits))
     [] g.k = "NOT" -> CQClassical(NotT)
+    [] g.k = "Noisy" -> CQClassical(NoisyT)
     [] g.k = "Copy" -> CQClassical(CopyT)
     [] g.k = "Match" -> CQClassical(MatchT)
     [] g.k = "MSwap" -> CQSwap(g.tl, g.tr)
@@ -150,7 +153,8 @@ MMixed == { MG("Measure", 1, d, o, <<>>, <<>>) : d \in 0..1, o \in 0..1 } \cup {
           \cup { MG("Discard", 0, 0, 0, t, <<>>) : t \in { <<"q">>, <<"b">>, <<"q", "b">>, <<"q", "q">>, <<"b", "q">> } }
           \cup { MG("MixedState", 0, 0, 0, t, <<>>) : t \in { <<"q">>, <<"b">>, <<"q", "q">> } }
           \cup { PKB("Bits", <<0>>), PKB("Bits", <<1>>), PKB("Bits", <<1, 0>>) }
-          \cup { MG("NOT", 0, 0, 0, <<>>, <<>>), MG("Copy", 0, 0, 0, <<>>, <<>>), MG("Match", 0, 0, 0, <<>>, <<>>) }
+          \cup { MG("NOT", 0, 0, 0, <<>>, <<>>), MG("Copy", 0, 0, 0, <<>>, <<>>), MG("Match", 0, 0, 0, <<>>, <<>>),
+                 MG("Noisy", 0, 0, 0, <<>>, <<>>) }
           \cup { MG("MSwap", 0, 0, 0, <<a>>, <<b>>) : a \in {"q", "b"}, b \in {"q", "b"} }
           \cup { MSC("scalar", 1, 1, 2), MSC("mscalar", 1, 0, 2) }
           \* the same amplitude scalars written as square roots (gates.Sqrt): sub = "sqrt" tells the adapter to build
@@ -171,7 +175,7 @@ QSwap(g) == g.k = "MSwap" /\ g.tl = <<"q">> /\ g.tr = <<"q">>
 AllPure(x) == (\A k \in 1..Len(x.layers) : x.layers[k].g.k \in AmplitudeKinds \/ QSwap(x.layers[k].g))
               /\ (\A k \in 1..Len(x.ty) : x.ty[k] = "q")
 \* circuits of classical boxes on bits only: their CQ map is their classical tensor
-ClassicalKinds == {"Bits", "NOT", "Copy", "Match"}
+ClassicalKinds == {"Bits", "NOT", "Noisy", "Copy", "Match"}
 AllClassical(x) == /\ \A k \in 1..Len(x.ty) : x.ty[k] = "b"
                    /\ \A k \in 1..Len(x.layers) : x.layers[k].g.k \in ClassicalKinds
                         \/ (x.layers[k].g.k = "MSwap" /\ x.layers[k].g.tl = <<"b">> /\ x.layers[k].g.tr = <<"b">>)
@@ -197,7 +201,7 @@ HasAmplitudeOnly(x) == \E k \in 1..Len(x.layers) : x.layers[k].g.k \in {"scalar"
 \* evaluating a pure circuit as a CQ map gives the doubled map of its pure evaluation
 InvDoubling == AllPure(mc) => CQSem(mc).m = CQPure(Sem(AsPure(mc))).m
 \* preparations, unitaries, measurements, discards and stochastic classical gates are trace-preserving
-TPKinds == {"H", "X", "Y", "S", "CX", "Rz", "Ry", "Ket", "Measure", "Discard", "Bits", "NOT", "Copy", "MSwap"}
+TPKinds == {"H", "X", "Y", "S", "CX", "Rz", "Ry", "Ket", "Measure", "Discard", "Bits", "NOT", "Noisy", "Copy", "MSwap"}
 IsTP(x) == \A k \in 1..Len(x.layers) : x.layers[k].g.k \in TPKinds
 InvTracePreserving == IsTP(mc) => CQThen(CQSem(mc), DiscardTy(CodTy(mc))).m = DiscardTy(mc.ty).m
 \* ... hence the counts read off the evaluation form a probability distribution
